@@ -96,6 +96,9 @@ def units(tier):
     from props import c01_model as MM
     wrap("C01.molalities.mass_action", MM.unit_molalities)
     wrap("C01.sum_species.totals_charge_alkalinity", MM.unit_sum_species)
+    from props import c01_init as IN
+    for fname, cls, par in IN.RECORDS:
+        wrap("C01.%s.redefinition_starts_from_a_clean_record" % fname, lambda twin=False, a=(fname, cls, par): IN.unit_record_init(*a, twin=twin))
     from props import c01_resid as MR
     wrap("C01.residuals.row_equations", MR.unit_residual_rows)
     from props import c01_readouts as RO
